@@ -128,7 +128,11 @@ CHECKS = {
         "text": "Coq theorem (Props/C10.v): for every history whose chunk size stays <= C and whose window (look-ahead for one item) "
                 "stays <= W, the reader's buffer never exceeds 3C + W bytes, independent of the number of bytes consumed (induction over "
                 "histories, using the realign threshold); the look-ahead window of a DIMACS next_clause call is bounded by the item it "
-                "consumes (view level; its link to valid_len during the call is not a theorem). The link to real heap use is measured: cnf and btor2 inputs generated on the "
+                "consumes; and (ProgBuf.v, CnfBuf.v) an instrumented run that records the largest buffer at every reader state of a "
+                "parser program's execution — every refill iteration included — stays <= 4*chunk + W when all peek offsets are < W, with "
+                "the precondition re-established at the end (so it composes over any number of calls); for a whole DIMACS parse of an "
+                "input whose items span <= n bytes and whose lines are <= L long the buffer never exceeds 4c + n + L + 1, however long "
+                "the input. The link to real heap use (Vec capacity, allocator, the parsers' own per-item buffers) is measured: cnf and btor2 inputs generated on the "
                 "fly are streamed under a counting allocator and the peak live heap is compared with 8*chunk + 16*item + 64 KiB.",
         "design_ref": "DESIGN.md 2/C10",
         "note": "Trusted: as C02. Partial: Vec growth policy, shrink_to_fit and allocator overhead are runtime behaviour (measured); the "
@@ -162,8 +166,11 @@ CHECKS = {
                 "and only the request that found the end went beyond); and at the concrete reader: over a source that hands out a "
                 "line per read, everything delivered has been consumed when the item is returned (no read after the one that "
                 "delivered the item's last line), for every chunk size; for any honest source a call whose requests were already "
-                "delivered does not touch the source. PARTIAL: AIGER/BTOR2 per-item look-ahead by the one-line-per-read oracle and "
-                "read-call counts against the model.",
+                "delivered does not touch the source. The same per-item theorems for BTOR2 next_line (incl. the keyword scanner's fast and "
+                "cold paths; a line with a comment leaves exactly its terminating LF requested but unconsumed) and for the ASCII AIGER "
+                "header and every section entry reader (LookW.v, Btor2Look.v, AigerLook.v). PARTIAL: binary AIGER and-gates and the "
+                "solver log per line by the one-line-per-read oracle and read-call counts against the model; the AIGER comment section "
+                "is by format the rest of the file.",
         "design_ref": "DESIGN.md 2/C09",
         "note": "Trusted: as C02/C16.",
         "technique": "Coq proof (call-count invariant over histories; minimal look-ahead of scanners) + model/implementation "
@@ -223,12 +230,15 @@ CHECKS = {
                 "column) satisfies loc_ok — a genuine line start (0 or just after an LF) whose number is 1 + the LF bytes before it, "
                 "no LF between it and the reported position, position within the input, column = position - line start + 1 — with one "
                 "documented exception inside the property's bounds (a last comment line without LF counts as a line; witness pinned). "
-                "'On the offending token' is checked by the corruption oracle (decorated layouts) on all formats. ASCII AIGER and BTOR2: "
-                "every reported (line, column) is exactly line_col_of S pos for a position of the input (no exception). Binary AIGER: "
-                "loc_ok for the input with the LF bytes of the and-gate section masked, and for the input itself when that section has "
-                "no byte 10; the witness that it fails otherwise (known finding K1) is pinned.",
+                "'On the offending token' is checked by the corruption oracle (decorated layouts) on all formats. ASCII AIGER, binary "
+                "AIGER and BTOR2: every reported (line, column) satisfies loc_ok and is exactly line_col_of S pos for a position of the "
+                "input (no exception); for binary AIGER every byte 10 of the file is a line break, also one that ends a delta code of "
+                "the and-gate section (C08_aig_error_location, C08_aig_error_position; corruption cases behind and-gate sections with "
+                "0x0A bytes).",
         "design_ref": "DESIGN.md 2/C08",
-        "note": "Trusted: as C01. Defects D2 (BTOR2 mark) and D11 (AIGER line accounting) were found by this check and fixed.",
+        "note": "Trusted: as C01. Defects D2 (BTOR2 mark), D11 (AIGER line accounting) and D15 (the former known finding K1: binary "
+                "AIGER did not count a byte 0x0A that ends a delta code of the and-gate section as a line break; fixed by 530b52f, "
+                "replay in corpus/pa_fixed.cases) were found by this check and fixed.",
         "technique": "Coq proof (LineReader primitives) + model/implementation correspondence + location oracle",
     },
     "C03": {
